@@ -17,7 +17,7 @@ import (
 
 type scenIn struct {
 	Scenario
-	Mode  string `json:"mode"`  // fault | crash | once | burst
+	Mode  string `json:"mode"`  // fault | crash | once | burst | cancel (the caller gives up before call k)
 	Every int    `json:"every"` // use every n-th placement (1 = all)
 }
 
@@ -73,6 +73,7 @@ func TestClusterFaults(t *testing.T) {
 			out.Emit(ev)
 		}
 	}
+	cancelAt := 0
 	one := func(in *scenIn, failAt, crashAt int) (k int, ok bool) {
 		env.WipeStore()
 		g.Reset(0, 0)
@@ -84,7 +85,7 @@ func TestClusterFaults(t *testing.T) {
 			return 0, false
 		}
 		run++
-		hdr := Event{"ev": "Run", "run": run, "mode": in.Mode, "store": StoreName(), "failAt": failAt, "crashAt": crashAt, "scenario": in.Scenario, "ids": b.IDs}
+		hdr := Event{"ev": "Run", "run": run, "mode": in.Mode, "store": StoreName(), "failAt": failAt, "crashAt": crashAt, "cancelAt": cancelAt, "scenario": in.Scenario, "ids": b.IDs}
 		evs := []Event{}
 		pre := env.Snapshot(b.Dims)
 		pre["when"] = "pre"
@@ -95,6 +96,7 @@ func TestClusterFaults(t *testing.T) {
 			g.obs = env.c13Observer(in.Op.App, nodes)
 		}
 		g.Reset(failAt, crashAt)
+		g.CancelAt(cancelAt)
 		if in.Mode == "burst" {
 			// no serialisation, and the instances' last external call of the creation (the commit of their recovery-log
 			// entry) completed at the same moment: their creation messages reach the caller back to back
@@ -181,6 +183,15 @@ func TestClusterFaults(t *testing.T) {
 			return
 		}
 		for k := 1 + (vt.EnvInt("VERIF_SEED", 1) % in.Every); ; k += in.Every {
+			if in.Mode == "cancel" {
+				if k > K {
+					break
+				}
+				cancelAt = k
+				one(&in, 0, 0)
+				cancelAt = 0
+				continue
+			}
 			if in.Mode == "crash" {
 				if k > K+1 {
 					break
